@@ -7,11 +7,19 @@ from cohdl._compiler.backend import generate_vhdl
 class VhdlCompiler:
     @classmethod
     def to_ir(cls, entity):
-        return generate_internal_representation(entity)
+        from ._prefix import _Prefix
+
+        prefix_depth = len(_Prefix._prefix_scope)
+
+        try:
+            return generate_internal_representation(entity)
+        finally:
+            # an aborted compilation never runs the traced __exit__ of std.prefix
+            del _Prefix._prefix_scope[prefix_depth:]
 
     @classmethod
     def to_vhdl_library(cls, top_entity, *, additional_reserved_names: set[str] = None):
-        ir = generate_internal_representation(top_entity)
+        ir = cls.to_ir(top_entity)
         return generate_vhdl(ir, additional_reserved_names=additional_reserved_names)
 
     @classmethod
